@@ -365,5 +365,5 @@ int main(int argc, char **argv) {
     fclose(st);
     reporter->destroy(reporter);
     fflush(NULL);
-    return status == 0 ? 0 : 1;
+    return status;      /* what a test program does: `return run_test_suite(...)` */
 }
